@@ -75,6 +75,13 @@ def countBy (w : α → Nat) (n : Nat) (xs : List α) : Nat := xs.foldl (fun acc
 def hashInsertAll (acc : List α) (xs : List α) : List α :=
   xs.foldl (fun acc x => if x ∈ acc then acc else x :: acc) acc
 
+/-- `insert_selectable_or_multiple_definition_diagnostic`: the FIRST definition of a key is kept, every later
+one is reported (with its own location — here the whole element).  Order-SENSITIVE on lists with repeated
+keys; client_declaration_access.rs / entrypoint_access.rs therefore visit the source files in path order
+since fixes ae7fd9c / 9ce2dae (`firstWins key (sortBy le xs)`). -/
+def firstWins (key : β → α) (xs : List β) : List β × List β :=
+  xs.foldl (fun acc x => if acc.1.any (fun y => key y = key x) then (acc.1, acc.2 ++ [x]) else (acc.1 ++ [x], acc.2)) ([], [])
+
 end
 
 /-! ## Sites -/
